@@ -205,6 +205,14 @@ class Env:
         if not ok:
             raise OutsidePre(note or 'assumption violated')
 
+    def assume_fact(self, cond, note=None):
+        """path assumption on an intermediate quantity that is also usable for guard resolution"""
+        self.assume_path(cond, note)
+        if self.sym:
+            from .core import CTX, SB
+            for c in self._flat_bools(cond):
+                CTX.simple.append(SB(c).e)
+
     def assume_divisors_nonzero(self, note):
         """from here on every symbolic divisor met on this path is assumed non-zero (explicit assumption,
         listed in the evidence); concretely: a zero divisor shows up as inf/nan and fails isfinite/eq"""
@@ -326,11 +334,11 @@ class Env:
                 goal = z3.And(*parts) if parts else z3.BoolVal(True)
             self._decide('%s%s' % (label, list(idx) if idx else ''), goal, triv)
 
-    def le(self, label, a, b, strict=False):
+    def le(self, label, a, b, strict=False, atol=ABS_TOL, rtol=REL_TOL):
         if not self.sym:
             A, B = np.broadcast_arrays(np.asarray(a, dtype=float), np.asarray(b, dtype=float))
             self.checked_labels += 1
-            slack = ABS_TOL + REL_TOL * np.maximum(np.abs(A), np.abs(B))
+            slack = atol + rtol * np.maximum(np.abs(A), np.abs(B))
             bad = ~(A <= B + slack) if not strict else ~(A < B + slack)
             if np.any(bad):
                 i = tuple(int(x) for x in np.argwhere(bad)[0])
